@@ -18,11 +18,11 @@ import (
 func init() {
 	Registry["C13"] = RunC13
 	Metas["C13"] = Meta{
-		Rule:           "episode = 20..200 reader ops (Peek/Skip/ReadByte/ReadBinary/Read small+large/Release/Len) and writer ops (Malloc/WriteBinary copy+zero-copy/Flush/Write/ReadFrom) on the real standard.Conn over a SimConn; inbound stream fragmented by the seeded scheduler (1B..20KiB, buffer-edge biased), FIN at any offset, EOF delivered with data, read-deadline expiry then continuation, peer accepting writes in pieces (backpressure), write error at a flush; sizes around 1/4095/4096/4097/8192/512KiB; initial buffers 4096/8192/65536. Oracle: byte-queue model stepped op by op. Non-trivial: >= 2 fragments and >= 10 ops; distinct = abstract signature (op kinds x size buckets x fragment buckets x faults). Added later: slices returned by ReadBinary are overwritten by the harness and must stay so (ownership); one episode in four drives network.NewWriter (Malloc / WriteBinary copy+link / Flush) over a sink with injected write errors and short writes against the concatenation model. Later still: the application goes on using zero-copy buffers it got back at earlier flushes.",
+		Rule:           "episode = 20..200 reader ops (Peek/Skip/ReadByte/ReadBinary/Read small+large/Release/Len) and writer ops (Malloc/WriteBinary copy+zero-copy/Flush/Write/ReadFrom) on the real standard.Conn over a SimConn; inbound stream fragmented by the seeded scheduler (1B..20KiB, buffer-edge biased), FIN at any offset, EOF delivered with data, read-deadline expiry then continuation, peer accepting writes in pieces (backpressure), write error at a flush; sizes around 1/4095/4096/4097/8192/512KiB; initial buffers 4096/8192/65536. Oracle: byte-queue model stepped op by op. Non-trivial: >= 2 fragments and >= 10 ops; distinct = abstract signature (op kinds x size buckets x fragment buckets x faults). Added later: slices returned by ReadBinary are overwritten by the harness and must stay so (ownership); one episode in four drives network.NewWriter (Malloc / WriteBinary copy+link / Flush) over a sink with injected write errors and short writes against the concatenation model. Later still: the application goes on using zero-copy buffers it got back at earlier flushes; regions reserved with Malloc are filled in only right before the next flush.",
 		Real:           []string{"standard.Conn: fill/Peek/peekBuffer/Skip/Release/handleTail/next/Read/ReadByte/ReadBinary/Malloc/WriteBinary/Flush/Write/ReadFrom", "linkBuffer nodes, mcache"},
 		Stub:           []string{"TCP (SimConn)", "clock (synctest)"},
 		Assumptions:    []string{"Read() on the connection releases earlier peeked slices (it calls Release internally); the peek-stability oracle treats it as a release point"},
-		RequiredProbes: []string{"fragments", "peek-cross-node", "big-peek", "eof-mid", "eof-with-data", "read-timeout", "zero-copy-write", "zero-copy-subslices", "backpressure", "write-error", "readfrom", "netwriter", "netwriter-zero-copy", "sink-write-error"},
+		RequiredProbes: []string{"fragments", "peek-cross-node", "big-peek", "eof-mid", "eof-with-data", "read-timeout", "zero-copy-write", "zero-copy-subslices", "backpressure", "write-error", "readfrom", "netwriter", "netwriter-zero-copy", "sink-write-error", "malloc-filled-late"},
 	}
 }
 
@@ -48,6 +48,7 @@ type c13state struct {
 	rx       []byte
 	zc       [][]byte // zero-copy buffers handed to WriteBinary, valid until flush
 	released [][]byte // zero-copy buffers of earlier flushes: the application's own memory again
+	late     [][2][]byte // regions reserved with Malloc that the application fills only right before the next flush: (region, content)
 	ops      int
 	dead     bool
 }
@@ -496,6 +497,10 @@ func (st *c13state) writeOp(tp *core.Tape, flushes *int, failAtFlush int) {
 		st.zc = nil
 	}
 	arm := func() {
+		for _, l := range st.late {
+			copy(l[0], l[1])
+		}
+		st.late = nil
 		// the application goes on using the buffers it got back at an earlier flush: they are its own memory
 		for _, z := range st.released {
 			for i := range z {
@@ -541,7 +546,13 @@ func (st *c13state) writeOp(tp *core.Tape, flushes *int, failAtFlush int) {
 			return
 		}
 		d := core.PatternBytes(wtag, n)
-		copy(buf, d)
+		if n%2 == 1 {
+			// a reserved region belongs to the caller until the flush: it is filled in later (a length prefix, a checksum)
+			st.late = append(st.late, [2][]byte{buf, d})
+			ep.Probe("malloc-filled-late")
+		} else {
+			copy(buf, d)
+		}
 		st.pending = append(st.pending, d...)
 	case 1: // WriteBinary
 		n := pickN(tp, false)
